@@ -59,6 +59,12 @@ pub fn f64_to_bytes(f: f64) -> [u8; 8] {
 }
 
 fn f64_to_bits(value: f64) -> Vec<bool> {
+    if !value.is_finite() {
+        // NaN and infinity have no integer part to normalize,
+        // take the bits of the IEEE 754 representation directly (msb -> lsb)
+        let raw = value.to_bits();
+        return (0..DOUBLE_BITS).rev().map(|i| (raw >> i) & 1 == 1).collect();
+    }
     match f64_abs_normalize_value(value) {
         Some((absolute_value, initial_exponent)) => {
             f64_to_bits_for_normalized_value(value < 0.0, absolute_value, initial_exponent)
